@@ -97,6 +97,16 @@ pub const TRIG_POOL_DENSE: &[KeyCode] = &[LEFTSHIFT, LEFTALT, CAPSLOCK, A, B];
 pub const OUT_MODS_DENSE: &[KeyCode] = &[LEFTSHIFT, LEFTALT];
 pub const OUT_ACT_DENSE: &[KeyCode] = &[A, X, CAPSLOCK];
 
+/// One Special repeat in eight waits minutes, hours or a day: legal values that sit beyond the
+/// places where milliseconds stop fitting (i32 microseconds at 2 147 483 ms, the 1 789 569 ms
+/// some poll implementations clamp to). Simulated time costs nothing.
+pub fn long_times(rng: &mut Rng, d: i32, i: i32) -> (i32, i32) {
+  if !rng.chance(1, 8) { return (d, i); }
+  let dl = [600_000, 1_800_000, 2_700_000, 3_600_000, 86_400_000];
+  let il = [1_800_000, 2_200_000, 3_600_000, 86_400_000];
+  match rng.below(3) { 0 => (rng.pick(&dl), i), 1 => (d, rng.pick(&il)), _ => (rng.pick(&dl), rng.pick(&il)) }
+}
+
 pub fn gen_layout(rng: &mut Rng, o: &LayoutOpts) -> Layout {
   let trig = if o.dense { TRIG_POOL_DENSE } else if o.big { TRIG_POOL_BIG } else { TRIG_POOL };
   let omods = if o.dense { OUT_MODS_DENSE } else if o.big { OUT_MODS_BIG } else { OUT_MODS };
@@ -113,6 +123,7 @@ pub fn gen_layout(rng: &mut Rng, o: &LayoutOpts) -> Layout {
     let (d, i) = if o.edge_times && rng.chance(1, 3) { ([0, 1, 5][rng.below(3)], [1, 2, 7][rng.below(3)]) } else { (100 + rng.below(100) as i32, 10 + rng.below(50) as i32) };
     // the loader accepts any integers here; the mapper-level properties do not exclude them
     let (d, i) = if o.weird && !o.edge_times && rng.chance(1, 4) { ([-1, 0, -2147483648, d][rng.below(4)], [0, -1, i, i][rng.below(4)]) } else { (d, i) };
+    let (d, i) = long_times(rng, d, i);
     palette.push(Repeat::Special { keys, delay_ms: d, interval_ms: i });
   }
   for _ in 0..n {
@@ -167,6 +178,7 @@ pub fn gen_layout(rng: &mut Rng, o: &LayoutOpts) -> Layout {
         let nk = rng.below(3) + if rng.chance(1, 8) { 1 } else { 0 };
         while keys.len() < nk { let k = if rng.chance(1, 3) { rng.pick(omods) } else { rng.pick(oact) }; uniq_push(&mut keys, k); }
         let (d, i) = if o.edge_times && rng.chance(1, 3) { ([0, 1, 5][rng.below(3)], [1, 2, 7][rng.below(3)]) } else { (100 + rng.below(100) as i32, 10 + rng.below(50) as i32) };
+        let (d, i) = long_times(rng, d, i);
         Repeat::Special { keys, delay_ms: d, interval_ms: i }
       } else { Repeat::Normal };
     if o.dense && rng.chance(1, 3) && from.len() > 1 && to.iter().any(|k| !is_mod(k)) {
@@ -207,6 +219,60 @@ pub fn through_loader(l: &Layout) -> Option<Layout> {
   load_value(&layout_json(l)).ok()
 }
 
+/// The same layout as a user might write it in a file: the repeat mode of some triggers is given by
+/// a separate repeat-only entry ({"from": .., "repeat": ..}: "sets the repeat mode of the mappings
+/// with the same trigger set, or adds an identity mapping if there is none"), with the modifiers of
+/// the trigger in another order. None if the layout offers no opportunity. The text means exactly
+/// `l`; what the tree under test makes of it is its own business (the oracles judge against `l`).
+pub fn write_with_repeat_only(rng: &mut Rng, l: &Layout) -> Option<String> {
+  let v = layout_json(l);
+  let arr = v.get("mappings")?.as_array()?.clone();
+  if arr.len() != l.mappings.len() || arr.is_empty() { return None; }
+  let key_of = |m: &Mapping| -> Vec<KeyCode> { let mut p: Vec<KeyCode> = m.from[..m.from.len().saturating_sub(1)].to_vec(); p.sort(); if let Some(k) = m.from.last() { p.push(*k); } p };
+  let mut out: Vec<serde_json::Value> = vec![];
+  let mut extra: Vec<serde_json::Value> = vec![];
+  let mut done: Vec<Vec<KeyCode>> = vec![];
+  let mut changed = false;
+  let n = l.mappings.len();
+  // a trailing identity mapping with a trigger set of its own is what a lone repeat-only entry adds
+  let last = &l.mappings[n - 1];
+  let last_alone = !last.from.is_empty() && last.from == last.to && last.absorbing.is_empty() && l.mappings[..n - 1].iter().all(|m| key_of(m) != key_of(last));
+  let drop_last = last_alone && rng.chance(1, 2);
+  let mut strip: Vec<bool> = vec![false; n];
+  for (i, m) in l.mappings.iter().enumerate() {
+    if m.from.is_empty() { return None; }
+    let k = key_of(m);
+    if done.contains(&k) { continue; }
+    done.push(k.clone());
+    let group: Vec<usize> = (0..n).filter(|j| key_of(&l.mappings[*j]) == k).collect();
+    let same = group.iter().all(|j| l.mappings[*j].repeat == m.repeat);
+    if i == n - 1 && drop_last { continue; }
+    if same && m.repeat != Repeat::Normal && rng.chance(1, 2) {
+      for j in &group { strip[*j] = true; }
+      let mut from = m.from.clone();
+      // modifiers of the trigger in another order: the same trigger set
+      if from.len() > 2 && rng.chance(1, 2) { let a = rng.below(from.len() - 1); let b = rng.below(from.len() - 1); from.swap(a, b); }
+      extra.push(serde_json::json!({"from": from.iter().map(key_name).collect::<Vec<_>>(), "repeat": arr[i].get("repeat").cloned().unwrap_or(serde_json::json!("Normal"))}));
+      changed = true;
+    }
+  }
+  for (i, a) in arr.iter().enumerate() {
+    if i == n - 1 && drop_last {
+      extra.push(serde_json::json!({"from": last.from.iter().map(key_name).collect::<Vec<_>>(), "repeat": a.get("repeat").cloned().unwrap_or(serde_json::json!("Normal"))}));
+      changed = true;
+      continue;
+    }
+    let mut o = a.clone();
+    if strip[i] { if let Some(obj) = o.as_object_mut() { obj.remove("repeat"); } }
+    out.push(o);
+  }
+  if !changed { return None; }
+  // repeat-only entries take effect after everything else is converted, wherever they stand; the
+  // identity mapping a lone one adds comes last, so that one stays at the end
+  for e in extra.into_iter() { if drop_last || rng.chance(1, 2) { out.push(e); } else { let at = rng.below(out.len() + 1); out.insert(at, e); } }
+  Some(serde_json::json!({"mappings": out}).to_string())
+}
+
 #[derive(Clone, Debug)]
 pub struct HistOpts {
   pub len: usize,
@@ -221,6 +287,9 @@ pub struct HistOpts {
   pub intents: usize,
   pub bias: bool,
   pub end_at_rest: bool,
+  /// a crowd: dozens of keys held at once (n-key rollover; a forearm on the keyboard); the key
+  /// universe is widened by that many extra keys
+  pub crowd: bool,
 }
 
 #[derive(Default, Clone, Debug)]
@@ -233,6 +302,12 @@ pub fn gen_ops(rng: &mut Rng, l: &Layout, o: &HistOpts, st: &mut GenStats) -> Ve
   if o.nodist { universe.retain(|k| !DIST.contains(k)); }
   let trig = trigger_keys(l);
   for k in FOREIGN { if !universe.contains(k) { universe.push(*k); } }
+  if o.crowd {
+    let all = crate::common::all_known_keys();
+    let mut guard = 0;
+    while universe.len() < o.max_held + 12 && guard < 2000 { guard += 1; let k = rng.pick(&all); if !universe.contains(&k) && !(o.nodist && DIST.contains(&k)) { universe.push(k); } }
+  }
+  let press_pct = if o.crowd { 80 } else { 56 };
   let mut truth: Vec<KeyCode> = vec![];     // keys truly held by the fingers
   let mut dphys: Vec<KeyCode> = vec![];     // fold of delivered events
   let mut r = Ref::default();
@@ -316,8 +391,8 @@ pub fn gen_ops(rng: &mut Rng, l: &Layout, o: &HistOpts, st: &mut GenStats) -> Ve
       }
       if chosen.is_none() {
         let r2 = rng.below(100);
-        if (r2 < 56 || truth.is_empty()) && truth.len() < o.max_held {
-          let k = if !trig.is_empty() && rng.chance(3, 4) { rng.pick(&trig) } else { rng.pick(&universe) };
+        if (r2 < press_pct || truth.is_empty()) && truth.len() < o.max_held {
+          let k = if !trig.is_empty() && !o.crowd && rng.chance(3, 4) { rng.pick(&trig) } else { rng.pick(&universe) };
           if !truth.contains(&k) && !(o.nodist && DIST.contains(&k)) { chosen = Some(Pressed(k)); }
         } else if !truth.is_empty() {
           chosen = Some(Released(rng.pick(&truth)));
@@ -363,8 +438,10 @@ pub fn swarm_hist(rng: &mut Rng, thorough: bool, faults: bool, resets: bool, nod
   // one history in 200 is a marathon: what only shows after hundreds of events (a counter, a
   // capacity, a clean-up that runs every N-th time) is out of reach of short histories
   let marathon = rng.chance(1, 200);
-  let len = if marathon { if thorough { rng.range(300, 3000) } else { rng.range(300, 1200) } } else if thorough { rng.range(4, 120) } else { rng.range(4, 40) };
-  let max_held = if thorough { rng.range(1, 6) } else { rng.range(1, 4) };
+  // one history in 400 is a crowd: 33-44 keys held at once
+  let crowd = rng.chance(1, 400);
+  let len = if crowd { rng.range(150, 400) } else if marathon { if thorough { rng.range(300, 3000) } else { rng.range(300, 1200) } } else if thorough { rng.range(4, 120) } else { rng.range(4, 40) };
+  let max_held = if crowd { rng.range(33, 44) } else if thorough { rng.range(1, 6) } else { rng.range(1, 4) };
   let faulty = faults && rng.chance(1, 2);
   let rate = |rng: &mut Rng| if faulty && rng.chance(1, 2) { rng.range(10, 100) as u64 } else { 0 };
   HistOpts {
@@ -375,5 +452,6 @@ pub fn swarm_hist(rng: &mut Rng, thorough: bool, faults: bool, resets: bool, nod
     intents: rng.below(4),
     bias: rng.chance(2, 3),
     end_at_rest: rng.chance(1, 2),
+    crowd,
   }
 }
